@@ -261,7 +261,7 @@ pub fn write_replay(property: &str, scenario: &str, dir: &str, choices: &[u32], 
 /// Class of a violation message (its prefix): used to attribute violations to properties.
 pub fn class_of(msg: &str) -> String {
     let m = msg.trim_start();
-    for (p, c) in [("data race", "race"), ("livelock", "livelock"), ("deadlock", "deadlock"), ("heap ", "alloc"), ("execution hung", "hung"), ("process died", "crash"), ("engine", "engine")] {
+    for (p, c) in [("data race", "race"), ("livelock", "livelock"), ("deadlock", "deadlock"), ("heap ", "alloc"), ("use after free", "uaf"), ("execution hung", "hung"), ("process died", "crash"), ("engine", "engine")] {
         if m.starts_with(p) {
             return c.to_string();
         }
